@@ -233,6 +233,16 @@ def tableScalar {α : Type} (S : Sem α) (o : BinOp) (cols : List (Vec α)) (oth
     Res (List (Col α)) :=
   mapRes (fun c => vectorBinary S o false c other) cols
 
+/-- `other <o> table` for a non-Table `other` (the reflected operators of `Table`, added with the repair of 4c3b80c):
+    `other <o> col for col in self.cols()` -/
+def tableScalarRefl {α : Type} (S : Sem α) (o : BinOp) (cols : List (Vec α)) (other : Operand α) :
+    Res (List (Col α)) :=
+  mapRes (fun c => vectorBinary S o true c other) cols
+
+/-- `-table`, `+table`, `abs(table)` (repair 7b34bbf): the unary operator column by column -/
+def tableUnary {α β : Type} (f : α → Res β) (cols : List (Vec α)) : Res (List (Col β)) :=
+  mapRes (fun c => broadcast f c.data) cols
+
 /-- `table <o> table`: width check (ValueError), then column by column -/
 def tableTable {α : Type} (S : Sem α) (o : BinOp) (a b : List (Vec α)) : Res (List (Col α)) :=
   if a.length ≠ b.length then .error .value
